@@ -52,6 +52,12 @@ def s_case(draw):
             "filtfilt": draw(st.booleans()), "route": draw(st.sampled_from(["fc_kL", "landa_kL", "fc_L", "landa_L", "fc_N", "landa_N"])), "wl": draw(st.one_of(st.none(), st.floats(1500e-9, 1600e-9)))}
 
 
+def btol(want):
+    """tolerance on the Bragg power reflectivity: 2% relative, plus the accuracy of the library's ODE solution (solve_ivp's default rtol=1e-3 /
+    atol=1e-6 bound the error of the reflected AMPLITUDE in absolute terms, ~1.5e-3, which dominates for weak gratings)"""
+    return 2e-2 * want + 2 * np.sqrt(want) * 1.5e-3 + 1e-6
+
+
 def call_fbg(x, **kw):
     buf = io.StringIO()
     with contextlib.redirect_stdout(buf):
@@ -112,7 +118,7 @@ def e_case(c):
         want = np.tanh(kL * integ) ** 2
         got = A[ib] ** 2
         errclass.append("bragg-err<1e-4" if abs(got - want) <= 1e-4 * want else "bragg-err<2e-3" if abs(got - want) <= 2e-3 * want else "bragg-err<2e-2")
-        check(abs(got - want) <= 2e-2 * want + 1e-6, "bragg-reflectivity!=tanh^2(kL*int p)", f"apo={apo} kL={kL:.3f}: |H|^2 = {got:.6f} vs {want:.6f} at bin {ib}")
+        check(abs(got - want) <= btol(want), "bragg-reflectivity!=tanh^2(kL*int p)", f"apo={apo} kL={kL:.3f}: |H|^2 = {got:.6f} vs {want:.6f} at bin {ib}")
         if apo == "uniform":
             f = fftshift(fftfreq(N)) * fs
             lam = CL / (f + f0)
@@ -142,7 +148,7 @@ def e_case(c):
         _, H3 = call_fbg(x, apodization=p2, **base, **spec)
         integ2, _ = integrate.quad(p2, -0.5, 0.5, epsabs=1e-12, limit=200)
         want2 = np.tanh(kL * integ2) ** 2
-        check(abs(np.abs(H3[ib]) ** 2 - want2) <= 2e-2 * want2 + 1e-6, "bragg-reflectivity!=tanh^2(kL*int p)",
+        check(abs(np.abs(H3[ib]) ** 2 - want2) <= btol(want2), "bragg-reflectivity!=tanh^2(kL*int p)",
               f"second callable profile with the same design numbers: |H|^2 = {np.abs(H3[ib]) ** 2:.6f} vs {want2:.6f} (first profile gave {A[ib] ** 2:.6f})")
         base["apodization"] = apod = profile(apo, c["a"], c["b"])
     # the same design on another grid, configured later in the same process: the response is computed for the grid now in force
@@ -154,7 +160,7 @@ def e_case(c):
         p_ = profile(apo, c["a"], c["b"])
         integ_, _ = integrate.quad(p_, -0.5, 0.5, epsabs=1e-12, limit=200)
         want_ = np.tanh(kL * integ_) ** 2
-        check(abs(np.abs(Hb[N // 2]) ** 2 - want_) <= 2e-2 * want_ + 1e-6, "bragg-reflectivity!=tanh^2(kL*int p)", f"after fs {fs:.4g} -> {fs2:.4g}: {np.abs(Hb[N // 2]) ** 2:.6f} vs {want_:.6f}")
+        check(abs(np.abs(Hb[N // 2]) ** 2 - want_) <= btol(want_), "bragg-reflectivity!=tanh^2(kL*int p)", f"after fs {fs:.4g} -> {fs2:.4g}: {np.abs(Hb[N // 2]) ** 2:.6f} vs {want_:.6f}")
         if apo == "uniform":
             f_ = fftshift(fftfreq(N)) * fs2
             lam_ = CL / (f_ + f0)
